@@ -331,7 +331,7 @@ def run(ctx):
         for case in MINIMAL:
             account(ctx, case, execute(ctx, case))
     # 1. merge: every subset of the forceable columns x importer x path
-    reps = 6 if ctx.tier == "quick" else 100
+    reps = 6 if ctx.tier == "quick" else 60
     i = 0
     for force in M.subsets():
         for fmt in ("gff3", "gtf"):
@@ -343,7 +343,7 @@ def run(ctx):
                     case = G.gen_history(rng, fmt, "merge", force, path)
                     account(ctx, case, execute(ctx, case))
     # 2. the other strategies (and more merge), random force sets
-    for _ in range(ctx.budget(4200, 160000)):
+    for _ in range(ctx.budget(4200, 64000)):
         strategy = rng.choice(["error", "warning", "replace", "create_unique", "create_unique", "merge"])
         force = rng.choice(M.subsets())
         case = G.gen_history(rng, rng.choice(["gff3", "gtf"]), strategy, force, rng.choice(["create", "update"]))
